@@ -296,6 +296,12 @@ def Fn.jaxGrad : {n : Nat} → Fn α n → CVec α n → CVec α n
       vsmul s (mulVec (transpose A)
         (fun i => Cx.smul (-(two * two * w i * (y i - Cx.abs2 (mulVec A x i)))) (mulVec A x i).conj))
 
+/-- JAX gradient of the non-separable Huber norm when the inner branch is written on the squared
+    norm (`0.5 * sum(abs(x)**2)`, proposed repair `fixes/huber-nonsep-grad-at-zero.patch`): no
+    division in the inner branch, so finite (and correct) at `x = 0` too. -/
+def huberNonsepSafeJaxGrad {n : Nat} (δ : α) (x : CVec α n) : CVec α n := fun i =>
+  if δ < norm2 x then Cx.smul δ (Cx.divr (x i).conj (norm2 x)) else (x i).conj
+
 /-- `Functional.grad(x) = self._grad(x)` with `self._grad = scico.grad(self.__call__)` -/
 def Fn.grad {n : Nat} (f : Fn α n) (x : CVec α n) : CVec α n := scicoGrad (f.jaxGrad x)
 
